@@ -204,6 +204,56 @@ def validate_evidence(path):
             raise MachineryError('evidence does not validate: ' + p.stdout[-800:])
 
 
+class CaseTimeout(Exception):
+    """the code under test did not return within the time limit"""
+
+
+class time_limit:
+    """with time_limit(s): ... raises CaseTimeout in the calling (worker) process if the body runs longer: a call of
+    the code under test that never returns becomes an observation instead of hanging the check"""
+
+    def __init__(self, seconds):
+        self.seconds = int(seconds)
+
+    def __enter__(self):
+        import signal
+
+        def handler(signum, frame):
+            raise CaseTimeout('no result within %d s' % self.seconds)
+        self.old = signal.signal(signal.SIGALRM, handler)
+        signal.alarm(self.seconds)
+
+    def __exit__(self, *exc):
+        import signal
+        signal.alarm(0)
+        signal.signal(signal.SIGALRM, self.old)
+        return False
+
+
+class Guard(time_limit):
+    """time_limit for one case in a worker; after two cases of this worker that did not terminate the remaining ones
+    are not run (each raises CaseTimeout at once), so a change that makes the code loop forever is reported in
+    seconds instead of hanging the check"""
+    count = 0
+
+    def __enter__(self):
+        if Guard.count >= 2:
+            raise CaseTimeout('not run: earlier cases of this worker did not terminate')
+        return super().__enter__()
+
+    def __exit__(self, et, ev, tb):
+        super().__exit__(et, ev, tb)
+        if et is not None and issubclass(et, CaseTimeout):
+            Guard.count += 1
+        return False
+
+
+def guarded(fn, seconds, *a, **k):
+    """fn(*a, **k) under a Guard"""
+    with Guard(seconds):
+        return fn(*a, **k)
+
+
 def main_wrapper(fn, pid, argv):
     """Common CLI: --tier quick|thorough, --replay file.  Exit 0/1, 2 for machinery failure."""
     import argparse
